@@ -1,9 +1,3 @@
-def test_p_builtin_nested(builtin_nested):
-    pass
-
-def test_p_builtin_tmp(builtin_tmp):
-    pass
-
 def test_p_ed0_fix(ed0_fix):
     pass
 
@@ -16,30 +10,18 @@ def test_p_not_a_plugin(not_a_plugin):
 def test_p_tp0(tp0):
     pass
 
-def test_p_tp0_deep(tp0_deep):
-    pass
-
-def test_p_tp0_intest(tp0_intest):
-    pass
-
-def test_p_tp0_sub(tp0_sub):
+def test_p_tp0_notloaded(tp0_notloaded):
     pass
 
 def test_p_tp1(tp1):
     pass
 
-def test_p_tp1_deep(tp1_deep):
+def test_p_up_fix(up_fix):
     pass
 
-def test_p_tp1_intest(tp1_intest):
+def test_p_ws_sib_helper_fx(ws_sib_helper_fx):
     pass
 
-def test_p_tp1_sub(tp1_sub):
-    pass
-
-def test_p_tp2(tp2):
-    pass
-
-def test_p_tp2_h(tp2_h):
+def test_p_ws_sibling_fx(ws_sibling_fx):
     pass
 
